@@ -279,6 +279,12 @@ func tokenChecks(rep *evid.Reporter, evals *int64) {
 	accFilters := c17Filters([]string{"address", "metadata[k]", "balance[USD]"},
 		map[string]interface{}{"address": "a:", "metadata[k]": "v", "balance[USD]": 5})
 	logFilters := c17Filters([]string{"date"}, map[string]interface{}{"date": "2023-05-06T07:08:09Z"})
+	// values whose bytes fall on every base64 alignment with the bit patterns that differ between alphabets (62 / 63), long
+	// values, and non-ASCII text: the token must carry any filter value
+	for _, v := range []string{"?", "??", "???", "x?", "xy?", "~", "~~", "~~~", ">", ">>", ">>>", "ÿ", "ÿÿ", "ÿÿÿ", "🙂", "really???", strings.Repeat("long-", 60), "a+b/c=d", "\u0000", "\"quoted\""} {
+		txFilters = append(txFilters, map[string]interface{}{"$match": map[string]interface{}{"reference": v}}, map[string]interface{}{"$match": map[string]interface{}{"metadata[k]": v}})
+		accFilters = append(accFilters, map[string]interface{}{"$match": map[string]interface{}{"metadata[k]": v}})
+	}
 	judge := func(kind string, filter interface{}, withPIT bool, direct func(st *ledgerstore.Store) (string, error), viaToken func(st *ledgerstore.Store, tok string) error, httpPath string) {
 		atomic.AddInt64(evals, 1)
 		raw, _ := json.Marshal(filter)
